@@ -179,3 +179,21 @@ def replay_add(r):
     except Exception as e:
         bad.append("%s: %s" % (type(e).__name__, e))
     return {"violation": bool(bad), "detail": "; ".join(bad)[:600]}
+
+
+def replay_ngrams_lemma(r):
+    from vectorizers.ngram_vectorizer import ngrams_of
+    inp, p = r["inputs"], r["params"]
+    L, n = min(int(inp["len"]), 3000), min(int(inp["ngram_size"]), 3100)
+    seq = list(range(L))
+    try:
+        got = [tuple(g) for g in ngrams_of(seq, n, p["behaviour"])]
+    except Exception as e:
+        return {"violation": True, "detail": "%s: %s" % (type(e).__name__, e)}
+    if p["behaviour"] == "exact":
+        exp = [tuple(seq[i:i + n]) for i in range(L) if i + n <= L]
+    else:
+        exp = [tuple(seq[i:i + j]) for i in range(L) for j in range(1, min(n, 60) + 1) if i + j <= L]
+        got = [g for g in got if len(g) <= 60]
+    bad = got != exp
+    return {"violation": bool(bad), "detail": "len=%d n=%d: %d grams, expected %d" % (L, n, len(got), len(exp))}
